@@ -4,7 +4,7 @@
    alg_distance.go, line.go, alg_point_in_ring.go over Q); reference semantics: Base/Planar.v (inG). *)
 From Coq Require Import QArith List Bool.
 From SF Require Import Base.GeomAST Base.QKernel Base.Planar Model.Intersects Model.Distance
-  Proofs.Intersects_proofs Proofs.Distance_proofs Proofs.Distance_lower.
+  Proofs.Intersects_proofs Proofs.Distance_proofs Proofs.Distance_lower Proofs.Intersects_areal.
 Import ListNotations.
 Open Scope Q_scope.
 
@@ -19,11 +19,14 @@ Theorem intersects_sound : forall a b : geom,
 Proof. exact intersects_sound. Qed.
 Print Assumptions intersects_sound.
 
-(* `false` means no common point, for operands without areal parts (points, line strings, their
-   multis and collections of them) whose line strings have two distinct vertices.
-   For areal operands this direction is NOT proved (it needs: boundaries disjoint -> nested or
-   disjoint; DESIGN 4.1) and is covered by the correspondence against the witness oracle:
-     intersects_complete : rings_closed, valid a, valid b -> inG a p -> inG b p -> intersects a b = true *)
+(* `false` means no common point.  Proved (a) for operands without areal parts whose line strings
+   have two distinct vertices (this theorem), and (b) below (intersects_complete_lower_partial)
+   whenever the common point lies on a puntal or lineal member of one operand, the other operand
+   being arbitrary (polygons, multipolygons, collections).  NOT proved: both members areal
+   (polygon against polygon; needs: boundaries disjoint -> nested or disjoint, i.e. a polygonal
+   Jordan argument); covered by the correspondence against the witness oracle, which is itself
+   verified (oracle_intersects_exact).  The full statement would be
+     intersects_complete : operand_ok a -> operand_ok b -> inG a p -> inG b p -> intersects a b = true *)
 Theorem intersects_complete_lineal_partial : forall (a b : geom) (p : pt),
   no_polys a = true -> no_polys b = true -> lines_wf a = true -> lines_wf b = true ->
   inG a p = true -> inG b p = true -> intersects a b = true.
@@ -38,6 +41,48 @@ Theorem intersects_empty : forall a b : geom,
   is_empty a = true \/ is_empty b = true -> intersects a b = false.
 Proof. exact intersects_empty. Qed.
 Print Assumptions intersects_empty.
+
+(* ---- the oracle of the correspondence is a verified decision procedure ---- *)
+
+(* share_witness evaluates inG of both operands at the witnesses of their exact arrangement
+   (Base/Planar.v).  By the sufficiency theorem of the slab decomposition (Proofs/Planar_slab.v,
+   Props/C02.v:slab_witnesses_sufficient) it decides "the two point sets share a point". So the
+   SPEC check `Go's Intersects = share_witness` compares against the exact answer. *)
+Theorem oracle_intersects_exact : forall a b : geom,
+  rings_closed a = true -> rings_closed b = true ->
+  (share_witness a b = true <-> exists p, inG a p = true /\ inG b p = true).
+Proof. exact share_witness_iff. Qed.
+Print Assumptions oracle_intersects_exact.
+
+(* the planar fact behind every containment probe: a segment that meets no edge of a closed ring
+   has the same crossing parity at both ends (staircase of axis-parallel moves below the exact
+   clearance of segment and ring; no continuity, no Jordan curve theorem) *)
+Theorem ring_parity_constant_off_ring : forall (ring : list pt) (u v : pt),
+  pts_closed ring = true ->
+  (forall e, In e (segs_of_pts ring) -> forall w, ~ (on_seg e w = true /\ on_seg (u, v) w = true)) ->
+  edges_parity (segs_of_pts ring) u = edges_parity (segs_of_pts ring) v.
+Proof. exact path_parity. Qed.
+Print Assumptions ring_parity_constant_off_ring.
+
+(* completeness with an areal operand: the common point lies on a point or line string of one
+   operand (in_lower), the other operand is arbitrary.  operand_ok asks what OGC validity gives:
+   line strings with two distinct vertices, rings closed with two distinct vertices, holes inside
+   the closed shell, shell and holes not entering a hole (poly_nest_ok) *)
+Theorem intersects_complete_lower_partial : forall (a b : geom) (p : pt),
+  operand_ok a -> operand_ok b -> (in_lower a p = true \/ in_lower b p = true) ->
+  inG a p = true -> inG b p = true -> intersects a b = true.
+Proof. exact intersects_complete_lower. Qed.
+Print Assumptions intersects_complete_lower_partial.
+
+(* hence, when one operand has no areal part at all, the model of Intersects IS the exact oracle *)
+Theorem intersects_eq_oracle_one_sided : forall a b : geom,
+  operand_ok a -> operand_ok b -> (no_polys a = true \/ no_polys b = true) ->
+  intersects a b = share_witness a b /\
+  ((exists d, dist2 a b = Some d /\ d == 0) <-> intersects a b = true).
+Proof.
+  intros a b Oa Ob H. split; [apply intersects_eq_oracle_one_sided | apply distance_zero_iff_intersects_one_sided]; assumption.
+Qed.
+Print Assumptions intersects_eq_oracle_one_sided.
 
 (* ---- distance kernels ---- *)
 
@@ -185,3 +230,17 @@ Example ex_pruned :
   pruned_search (fun r => fst r) (fun r => snd r) [(0, 4); (1, 2); (3, 9); (5, 6)] None = Some 2
   /\ full_search (fun r : Q * Q => snd r) [(0, 4); (1, 2); (3, 9); (5, 6)] None = Some 2.
 Proof. vm_compute. auto. Qed.
+
+(* operand_ok is satisfiable by an areal operand; a line inside the polygon, boundaries apart:
+   the answer comes from the StartPoint probe *)
+Definition ex_lshape : geom :=
+  GPoly (MkPoly XY [MkLine XY [qv 0 0; qv 6 0; qv 6 2; qv 2 2; qv 2 6; qv 0 6; qv 0 0]]).
+Definition ex_inner : geom := GMLine XY [MkLine XY [qv 1 1; qv 1 5]; MkLine XY []].
+Example ex_operand_ok : operand_ok ex_lshape /\ operand_ok ex_inner /\ no_polys ex_inner = true /\
+  in_lower ex_inner (1, 3) = true /\ inG ex_lshape (1, 3) = true /\ intersects ex_lshape ex_inner = true /\
+  share_witness ex_lshape ex_inner = true.
+Proof.
+  unfold operand_ok, polys_nest_ok, poly_nest_ok. repeat split; try (vm_compute; reflexivity).
+  - intros y [<-|[]]. cbn. repeat split; intros; contradiction.
+  - intros y [].
+Qed.
